@@ -21,7 +21,7 @@ from typing import Callable, Dict, List, Optional, Sequence, Tuple
 from cryptography.exceptions import InvalidSignature, InvalidTag
 from cryptography.hazmat.primitives import hashes, serialization
 from cryptography.hazmat.primitives.asymmetric import (ec, ed25519, padding,
-                                                       rsa, x25519)
+                                                       rsa, x448, x25519)
 from cryptography.hazmat.primitives.asymmetric.utils import (
     decode_dss_signature, encode_dss_signature)
 from cryptography.hazmat.primitives.ciphers import Cipher, algorithms, modes
@@ -70,7 +70,9 @@ for _n, _h, _k in ((b'hmac-md5', 'md5', 16), (b'hmac-sha1', 'sha1', 20),
     MACS[_n] = (_h, _k, _k, False)
     MACS[_n + b'-etm@openssh.com'] = (_h, _k, _k, True)
 
-for _n, _h, _k in ((b'hmac-md5-96', 'md5', 16), (b'hmac-sha1-96', 'sha1', 20)):
+for _n, _h, _k in ((b'hmac-md5-96', 'md5', 16), (b'hmac-sha1-96', 'sha1', 20),
+                   (b'hmac-sha2-256-96', 'sha256', 32),
+                   (b'hmac-sha2-512-96', 'sha512', 64)):
     MACS[_n] = (_h, _k, 12, False)
     MACS[_n + b'-etm@openssh.com'] = (_h, _k, 12, True)
 
@@ -112,6 +114,7 @@ _P1 = int(
 KEXES: Dict[bytes, Tuple[str, str, object]] = {
     b'curve25519-sha256': ('x25519', 'sha256', None),
     b'curve25519-sha256@libssh.org': ('x25519', 'sha256', None),
+    b'curve448-sha512': ('x448', 'sha512', None),
     b'ecdh-sha2-nistp256': ('ecdh', 'sha256', ec.SECP256R1),
     b'ecdh-sha2-nistp384': ('ecdh', 'sha384', ec.SECP384R1),
     b'ecdh-sha2-nistp521': ('ecdh', 'sha512', ec.SECP521R1),
@@ -787,8 +790,9 @@ class RefPeer:
                           g: Optional[int] = None) -> None:
         fam, _, param = KEXES[self.negotiated['kex']]
 
-        if fam == 'x25519':
-            self.kex_priv = x25519.X25519PrivateKey.generate()
+        if fam in ('x25519', 'x448'):
+            self.kex_priv = x25519.X25519PrivateKey.generate() \
+                if fam == 'x25519' else x448.X448PrivateKey.generate()
             self.kex_e = self.kex_priv.public_key().public_bytes(
                 serialization.Encoding.Raw, serialization.PublicFormat.Raw)
             self.send(byte(30) + string(self.kex_e))
@@ -831,7 +835,7 @@ class RefPeer:
                 raise RefError('unexpected kex message %d' % t)
 
             ks = r.string()
-            f_raw = r.string() if fam in ('x25519', 'ecdh') else None
+            f_raw = r.string() if fam in ('x25519', 'x448', 'ecdh') else None
             f = r.mpint() if f_raw is None else None
             sig = r.string()
             if not r.end():
@@ -854,7 +858,7 @@ class RefPeer:
             if t != want:
                 raise RefError('unexpected kex message %d' % t)
 
-            if fam in ('x25519', 'ecdh'):
+            if fam in ('x25519', 'x448', 'ecdh'):
                 e_raw, e = r.string(), None
             else:
                 e_raw, e = None, r.mpint()
@@ -872,11 +876,13 @@ class RefPeer:
     def _client_finish(self, ks: bytes, f_raw, f, sig: bytes) -> None:
         fam, _, param = KEXES[self.negotiated['kex']]
 
-        if fam == 'x25519':
-            if len(f_raw) != 32:
-                raise RefError('bad curve25519 public value length')
+        if fam in ('x25519', 'x448'):
+            if len(f_raw) != (32 if fam == 'x25519' else 56):
+                raise RefError('bad curve25519/448 public value length')
             shared = self.kex_priv.exchange(
-                x25519.X25519PublicKey.from_public_bytes(f_raw))
+                x25519.X25519PublicKey.from_public_bytes(f_raw)
+                if fam == 'x25519' else
+                x448.X448PublicKey.from_public_bytes(f_raw))
             K = int.from_bytes(shared, 'big')
             mid = string(ks) + string(self.kex_e) + string(f_raw)
         elif fam == 'ecdh':
@@ -917,14 +923,17 @@ class RefPeer:
         fam, _, param = KEXES[self.negotiated['kex']]
         ks = self.host_key.blob()
 
-        if fam == 'x25519':
-            if len(e_raw) != 32:
-                raise RefError('bad curve25519 public value length')
-            priv = x25519.X25519PrivateKey.generate()
+        if fam in ('x25519', 'x448'):
+            if len(e_raw) != (32 if fam == 'x25519' else 56):
+                raise RefError('bad curve25519/448 public value length')
+            priv = x25519.X25519PrivateKey.generate() if fam == 'x25519' \
+                else x448.X448PrivateKey.generate()
             f_raw = priv.public_key().public_bytes(
                 serialization.Encoding.Raw, serialization.PublicFormat.Raw)
             K = int.from_bytes(priv.exchange(
-                x25519.X25519PublicKey.from_public_bytes(e_raw)), 'big')
+                x25519.X25519PublicKey.from_public_bytes(e_raw)
+                if fam == 'x25519' else
+                x448.X448PublicKey.from_public_bytes(e_raw)), 'big')
             mid = string(ks) + string(e_raw) + string(f_raw)
             reply_f = string(f_raw)
         elif fam == 'ecdh':
